@@ -1,7 +1,9 @@
 import Proofs.Lemmas.Interp
 import Proofs.Lemmas.Ecdf
+import Proofs.Lemmas.Spectral
 import Proofs.Audit
 import Mathlib.Analysis.SpecialFunctions.Exp
+import Mathlib.Data.Real.StarOrdered
 
 /-!
 # C18 — BMCI estimates are the importance-weighted statistics of its database
@@ -23,7 +25,7 @@ not), proved for `mk` (`mk_valid`) and checked on the real arrays by the driver
 set_option linter.unusedSectionVars false
 set_option linter.unusedSimpArgs false
 
-open Bmci
+open Bmci Matrix
 
 variable {α : Type} [Field α] [LinearOrder α] [IsStrictOrderedRing α]
 
@@ -154,6 +156,24 @@ theorem C18_window_sound (db : Db α) (hv : db.Valid) (q : Query α) (hq : q.res
   calc 2 * x2max = pc1e * rad ^ 2 := hrad2.symm
     _ < pc1e * (p - yproj) ^ 2 := mul_lt_mul_of_pos_left hd hpc
     _ ≤ db.rows[k].chi2 := hs
+
+/-- **C18_spectral_inequality** — the named hypothesis of `C18_window_sound`, derived for the
+real-valued setting of the code: `S` symmetric positive definite, `v` a unit eigenvector
+(`S v = λ v`; *any* eigenpair will do, the smallest `λ` only makes the window narrowest),
+`pc1_e = 1/λ`, projections `v·(yᵢ - ȳ)` and `v·(y_obs - ȳ)`, `χ²ᵢ = (yᵢ - y_obs)ᵀ S⁻¹ (yᵢ - y_obs)`.
+Then `pc1_e > 0` and `pc1_e · (projᵢ - y_proj)² ≤ χ²ᵢ`.  (That `np.linalg.eig` returns
+such a pair, and `np.linalg.inv` the inverse, stays trusted.) -/
+theorem C18_spectral_inequality {m : Type} [Fintype m] [DecidableEq m]
+    (S : Matrix m m ℝ) (hS : S.PosDef) (v : m → ℝ) (lam : ℝ)
+    (hv : S.mulVec v = lam • v) (hunit : v ⬝ᵥ v = 1) (ybar yobs yi : m → ℝ) :
+    0 < 1 / lam ∧
+    (1 / lam) * (v ⬝ᵥ (yi - ybar) - v ⬝ᵥ (yobs - ybar)) ^ 2
+      ≤ (yi - yobs) ⬝ᵥ (S⁻¹.mulVec (yi - yobs)) := by
+  have h := spectral_inequality S hS v lam hv hunit (yi - yobs)
+  have e : v ⬝ᵥ (yi - ybar) - v ⬝ᵥ (yobs - ybar) = v ⬝ᵥ (yi - yobs) := by
+    simp only [dotProduct_sub]; ring
+  rw [e]
+  exact ⟨one_div_pos.mpr h.1, h.2⟩
 
 /-- **C18_excluded_weight_small** — consequence for the weights: when the weight is an
 anti-monotone function `g` of `χ²` (`g = fun c => exp (-c/2)` in the real code), every entry
@@ -421,6 +441,12 @@ example : ex_rows.reverse.Perm ex_rows := List.reverse_perm _
 #guard (match predict ex_db ⟨true, 4, 9⟩ with | .nan => true | _ => false)
 -- C18_cdf_is_weighted_ecdf: k = 1 is the last index of the group x = 10 (xs[2] = 20 > 10)
 #guard cdfAt ex_db ex_q 10 == 5 / 8 && cdfAt ex_db ex_q 20 == 3 / 4 && cdfAt ex_db ex_q 30 == 1
+-- C18_spectral_inequality: S = 1 (2x2) is positive definite with unit eigenvector (1, 0), λ = 1
+example : (1 : Matrix (Fin 2) (Fin 2) ℝ).PosDef := Matrix.PosDef.one
+example : (1 : Matrix (Fin 2) (Fin 2) ℝ).mulVec ![1, 0] = (1 : ℝ) • ![1, 0] ∧ (![1, 0] : Fin 2 → ℝ) ⬝ᵥ ![1, 0] = 1 := by
+  constructor
+  · simp
+  · simp [dotProduct, Fin.sum_univ_two]
 -- C18_excluded_weight_small: an anti-monotone weight function compatible with no row being
 -- contradicted is e.g. g c = 4 - c on this state restricted to its chi2 values; Antitone is satisfiable:
 example : Antitone (fun c : ℚ => -c / 2) := fun a b h => by simp only; linarith
@@ -428,5 +454,6 @@ example : Antitone (fun c : ℚ => -c / 2) := fun a b h => by simp only; linarit
 end examples
 
 assert_axioms C18_predict_formula_window C18_predict_formula C18_predict_formula_exp
-  C18_perm_invariant C18_window_spec C18_window_sound C18_excluded_weight_small
+  C18_perm_invariant C18_window_spec C18_window_sound C18_spectral_inequality
+  C18_excluded_weight_small
   C18_pruned_estimate_bound C18_xsort_window C18_cdf_monotone_ends_one C18_cdf_is_weighted_ecdf C18_quantiles_monotone_in_range C18_nan_when_no_weight
